@@ -15,7 +15,7 @@ pub fn plan() -> Plan {
         meta: Meta {
             property: "C12",
             level: "exploration",
-            rule: "offline/online checker over the complete ordered I/O tap trace (every create, write with offset/length/payload, sync, positional rewrite) of sequential histories with a worker barrier after each step, for dirty-byte limits {0, 1, 100, 4096, 1 MiB, default}: (1) after every acknowledged write/delete + one barrier the active blob's un-synced bytes (file length minus length covered by the last completed sync, ground truth from the trace) are <= the limit; (2) in every blob file a sync covering the header precedes the first record write; (3) whenever an index header with the written bit is written, the blob_size parsed from the written bytes is <= the synced length of the blob file at that point of the trace; (4) after Ok from fsyncdata(), try_close_active_blob() and close() no un-synced bytes of that blob remain. Histories: puts of 8 B..200 KiB, deletes (also into closed blobs), rotations, force updates, dumps, restarts. Non-trivial = history in which at least one sync was triggered by the dirty-byte limit or an index header was checked; distinct = hash(history, limit).",
+            rule: "offline/online checker over the complete ordered I/O tap trace (every create, write with offset/length/payload, sync, positional rewrite) of sequential histories with a worker barrier after each step, for dirty-byte limits {0, 1, 100, 4096, 1 MiB, default}: (1) after every acknowledged write/delete + one barrier the active blob's un-synced bytes (file length minus length covered by the last completed sync, ground truth from the trace) are <= the limit; (2) in every blob file a sync covering the header precedes the first record write; (3) whenever an index header with the written bit is written, the blob_size parsed from the written bytes is <= the synced length of the blob file at that point of the trace; (4) after Ok from fsyncdata(), try_close_active_blob() and close() no un-synced bytes of that blob remain. Plus a concurrent scenario (4-24 writer tasks, limits {0,100,4096,65536}): once all clients are done and the worker is idle, rule (1) must hold with no further client action. Histories: puts of 8 B..200 KiB, deletes (also into closed blobs), rotations, force updates, dumps, restarts. Non-trivial = history in which at least one sync was triggered by the dirty-byte limit or an index header was checked; distinct = hash(history, limit).",
             assumptions: vec!["a sync event covers the file length observed under the per-file tap lock right before sync_all", "bytes present at (re)open are durable", "verdict holds for the traces produced for this seed"],
         },
         shards: 16,
@@ -165,6 +165,57 @@ fn fill(out: &mut Out, t: &Trace) {
     out.idx_headers = t.index_headers_checked;
 }
 
+/// Concurrent writers with a small dirty-byte limit: once all clients are done and the worker is idle
+/// (barrier), the active blob's un-synced bytes must be within the limit - no further client action follows.
+async fn concurrent_scenario(dir: std::path::PathBuf, cfg: Cfg, seed: u64, limit: u64) -> Result<(u64, u64), (String, String)> {
+    use bytes::Bytes;
+    use pearl::{ArrayKey, BlobRecordTimestamp, Storage};
+    let mut rng = Rng::new(seed);
+    let mut s: Storage<ArrayKey<8>> = crate::drive::builder_for(&cfg, &dir).build().map_err(|e| ("build".to_string(), format!("{:#}", e)))?;
+    let mut trace = Trace::new(true, false);
+    tap::arm(&dir, true, false);
+    s.init().await.map_err(|e| ("init".to_string(), format!("{:#}", e)))?;
+    let s = std::sync::Arc::new(s);
+    let tasks = rng.range(4, 24);
+    let mut hs = Vec::new();
+    for t in 0..tasks {
+        let s = s.clone();
+        let mut r = Rng::new(crate::rng::mix(seed, t));
+        hs.push(tokio::spawn(async move {
+            for i in 0..r.range(3, 12) {
+                let size = *r.pick(&[20usize, 200, 3000, 90_000]);
+                let key = ArrayKey::<8>::from(crate::drive::key_bytes(3, (t * 100 + i) as u16, 8));
+                let _ = s.write(&key, Bytes::from(crate::drive::value_bytes(t * 1000 + i + 1, size as u32)), BlobRecordTimestamp::new(i)).await;
+                if r.chance(1, 3) {
+                    tokio::task::yield_now().await;
+                }
+            }
+        }));
+    }
+    for h in hs {
+        let _ = h.await;
+    }
+    // worker idle: every requested background sync has finished
+    s.verif_barrier(true).await;
+    s.verif_barrier(true).await;
+    let ev = tap::drain(&dir);
+    trace.feed(&ev);
+    let syncs = trace.syncs_seen;
+    let writes = trace.writes_seen;
+    let active = dir.join("t.0.blob");
+    let dirty = trace.dirty(&active).unwrap_or(0);
+    let s = std::sync::Arc::try_unwrap(s).map_err(|_| ("harness".to_string(), "storage shared".to_string()))?;
+    let _ = s.close().await;
+    let _ = tap::disarm(&dir);
+    if let Some(v) = trace.violations.first() {
+        return Err((format!("concurrent/{}", v.rule.trim_start_matches("c12/")), v.detail.clone()));
+    }
+    if dirty > limit {
+        return Err(("concurrent/dirty-above-limit-at-quiescence".into(), format!("{} writer tasks finished, worker idle, but {} bytes of the active blob are un-synced (limit {}); {} writes, {} syncs in the trace", tasks, dirty, limit, writes, syncs)));
+    }
+    Ok((writes, syncs))
+}
+
 pub fn shard(ctx: &Ctx) -> Shard {
     let mut sh = Shard::default();
     let mut rng = Rng::new(ctx.shard_seed());
@@ -172,6 +223,30 @@ pub fn shard(ctx: &Ctx) -> Shard {
     let limits: [Option<u64>; 6] = [Some(0), Some(1), Some(100), Some(4096), Some(1 << 20), None];
     let mut n = 0u64;
     while ctx.time_left() {
+        if n % 10 == 9 {
+            let mut cfg: Cfg = random_cfg(&mut rng, 4, 0, Some(true));
+            cfg.keylen = 8;
+            let limit = *rng.pick(&[0u64, 100, 4096, 65536]);
+            cfg.max_dirty = Some(limit);
+            let seed = rng.next();
+            let dir = new_dir("c12c-");
+            let r = block_on_catch(cfg.mt, concurrent_scenario(dir.clone(), cfg.clone(), seed, limit));
+            rm_dir(&dir);
+            n += 1;
+            sh.evaluations += 1;
+            sh.add("concurrent_scenarios", 1);
+            sh.nontrivial.insert(seed);
+            let replay = json!({"check": "c12-concurrent", "cfg": cfg.to_json(), "seed": seed});
+            match r {
+                Ok(Ok((w, sy))) => {
+                    sh.add("concurrent_writes_traced", w);
+                    sh.add("concurrent_syncs_traced", sy);
+                }
+                Ok(Err((sig, d))) => sh.violation(&ctx.known, "C12", ctx.seed, &format!("C12/{}", sig), &d, replay),
+                Err(p) => sh.violation(&ctx.known, "C12", ctx.seed, "C12/concurrent/panic", &p, replay),
+            }
+            continue;
+        }
         let mut cfg: Cfg = random_cfg(&mut rng, p.n_keys, p.n_meta, Some(true));
         cfg.keylen = 8;
         cfg.max_dirty = limits[(n % 6) as usize];
